@@ -475,3 +475,34 @@ Proof.
       assert (Ej : spec_find L t = Some j) by (apply spec_find_iff; [assumption..|split; assumption]).
       rewrite Ej. apply IH in Hrest. rewrite Hrest. reflexivity.
 Qed.
+
+(* ------------------------------------------------------------------ C10 / C11 at the API *)
+Theorem create_gate sgn cs a features rand clock ok : R cs a -> clock < 2 ^ 64 ->
+  outp (step sgn langs cs (OpCreate features rand clock ok)) =
+    if negb (spec_supported (as_mask a) (N.land features 7)) then OutStatus ST_UNSUPPORTED None None
+    else if negb ok then OutStatus ST_MEMORY None None
+    else OutStatus ST_OK (Some (st_next cs)) None.
+Proof.
+  intros HR Hc. destruct (sim_create sgn cs a features rand clock ok HR Hc) as [S _]. unfold outp. rewrite S.
+  cbn [astep]. destruct (spec_supported _ _); cbn [negb snd]; [|reflexivity].
+  destruct ok; cbn [negb snd]; [|reflexivity]. rewrite (R_next _ _ HR). reflexivity.
+Qed.
+
+Theorem enable_effect sgn cs a m : R cs a ->
+  outp (step sgn langs cs (OpEnable m)) = OutNum (popcount 3 (N.land m 7)) /\
+  st_reserved (stp (step sgn langs cs (OpEnable m))) = N.lxor 15 (N.land m 7) /\
+  R (stp (step sgn langs cs (OpEnable m))) (mkastate (as_deps a) (N.land m 7) (as_seeds a) (as_next a)).
+Proof.
+  intros HR. destruct (sim_enable sgn cs a m HR) as [S1 S2]. unfold outp, stp. split; [rewrite S1; reflexivity|].
+  split; [|exact S2]. cbn [step]. rewrite MiscProofs.enable_spec. reflexivity.
+Qed.
+
+Theorem create_birthday sgn cs features rand clock h :
+  outp (step sgn langs cs (OpCreate features rand clock true)) = OutStatus ST_OK (Some h) None ->
+  outp (step sgn langs (stp (step sgn langs cs (OpCreate features rand clock true))) (OpGetBirthday h)) =
+    OutNum (birthday_decode (birthday_encode clock)).
+Proof.
+  unfold outp, stp. cbn [step]. destruct (features_supported _ _); cbn [negb fst snd]; [|discriminate].
+  match goal with |- context [poly_of 0 ?d] => destruct (poly_of 0 d) end; cbn [fst snd]; [|discriminate].
+  intros E. injection E as <-. cbn [st_heap heap_get]. rewrite N.eqb_refl. reflexivity.
+Qed.
